@@ -299,7 +299,7 @@ func C01(tier string, args []string) int {
 	run.Coverage["worker_hangs"] = res.Hangs
 	run.Coverage["fixtures"] = len(w.fixtures)
 	run.Coverage["exhaustive"] = !res.DeadlineHit && res.Done >= w.N()
-	run.Coverage["rule"] = "every well-typed statement sequence up to the length bound over the alphabet (6 starts + 59 step instances) x 6 fixture graphs; every ill-typed sequence up to length 3 must be rejected; non-trivial = a run that returned at least one row (all runs are distinct program x graph pairs)"
+	run.Coverage["rule"] = "every well-typed statement sequence up to the length bound over the alphabet (6 starts + 60 step instances) x 6 fixture graphs; every ill-typed sequence up to length 3 must be rejected; non-trivial = a run that returned at least one row (all runs are distinct program x graph pairs)"
 	s := res.Samples
 	if len(s) == 0 {
 		s = []string{refsem.ProgName(w.progs[len(w.progs)/2])}
